@@ -622,7 +622,12 @@ func runC29(o vh.Opts) {
 			// oracle: the property's own list
 			if name, req := c29RequiredOf(p); req {
 				rep.Count("required-mutations")
-				if !ch {
+				// a stored magic block hash that ComputeHash has just recomputed from the contents is not a
+				// tampering any more (nothing differing from the contents survives)
+				healed := p == "MagicBlock.Hash" && b.MagicBlock != nil && b.MagicBlock.Hash == b.MagicBlock.GetHash()
+				if !ch && healed {
+					rep.Count("stored-magic-block-hash-recomputed")
+				} else if !ch {
 					mi := in
 					mi.Tamper = p
 					mi.Note = "required: " + name
